@@ -27,6 +27,9 @@ type taskSide struct {
 	wg       *types.Var // field of type *sync.WaitGroup
 	resT     *types.Named
 	errField *types.Var // field of the result struct holding the error
+	cancelConst int64
+	prog        *Prog
+	lifted      map[ssa.Instruction]bool // helper calls standing for the sites they contain
 }
 
 func fieldVarOfLoad(v ssa.Value) *types.Var {
@@ -66,7 +69,7 @@ func callOf(i ssa.Instruction) *ssa.CallCommon {
 }
 
 func resolveSide(p *Prog, owner string) *taskSide {
-	s := &taskSide{owner: owner}
+	s := &taskSide{owner: owner, prog: p, cancelConst: cancelValue(p), lifted: map[ssa.Instruction]bool{}}
 	s.parent = p.Method("io", owner, "processBlock")
 	eachInstr(s.parent, func(i ssa.Instruction) {
 		if g, ok := i.(*ssa.Go); ok {
@@ -130,14 +133,11 @@ func resolveSide(p *Prog, owner string) *taskSide {
 	if s.counter == nil || s.curID == nil || s.stream == nil || s.wg == nil {
 		undecided("task type %s: cannot identify counter/id/stream/wg fields", s.taskT)
 	}
-	// deferred closure: a defer of a MakeClosure in fn
+	// deferred handler: a defer of a closure or of a static function/method that calls recover()
 	eachInstr(s.fn, func(i ssa.Instruction) {
 		if d, ok := i.(*ssa.Defer); ok {
-			if mc, ok := d.Call.Value.(*ssa.MakeClosure); ok {
-				cf := mc.Fn.(*ssa.Function)
-				if containsRecover(cf) {
-					s.deferred = cf
-				}
+			if cf := deferredTarget(d); cf != nil && cf.Blocks != nil && containsRecover(cf) {
+				s.deferred = cf
 			}
 		}
 	})
@@ -208,8 +208,21 @@ func (s *taskSide) counterLoad(v ssa.Value) bool {
 	return isAtomic(&c.Call, "LoadInt32") && len(c.Call.Args) == 1 && s.isCounterPtr(c.Call.Args[0])
 }
 
-// acquireEdges returns the edges on which `Load(counter) == cur-1` holds.
+// acquireEdges returns the edges on which `Load(counter) == cur-1` holds, in f itself or through a turn-predicate helper.
 func (s *taskSide) acquireEdges(f *ssa.Function) []edge {
+	out := s.acquireEdgesLocal(f)
+	acq, _ := s.predicateEdges(f, s.cancelConst)
+	return append(out, acq...)
+}
+
+// cancelEdges: edges taken when the counter holds the cancel value, in f itself or through a turn-predicate helper.
+func (s *taskSide) cancelEdges(f *ssa.Function) []edge {
+	out := s.cancelEdgesLocal(f, s.cancelConst)
+	_, can := s.predicateEdges(f, s.cancelConst)
+	return append(out, can...)
+}
+
+func (s *taskSide) acquireEdgesLocal(f *ssa.Function) []edge {
 	var out []edge
 	for _, b := range f.Blocks {
 		ifi := blockIf(b)
@@ -242,7 +255,8 @@ func (s *taskSide) acquireEdges(f *ssa.Function) []edge {
 	return out
 }
 
-// sharedUses lists the instructions in f that use the shared bitstream loaded from the task struct.
+// sharedUses lists the instructions in f that use the shared bitstream loaded from the task struct, plus the calls to
+// same-package helpers that (transitively) use it (recorded in s.lifted).
 func (s *taskSide) sharedUses(f *ssa.Function) []ssa.Instruction {
 	var out []ssa.Instruction
 	eachInstr(f, func(i ssa.Instruction) {
@@ -254,6 +268,17 @@ func (s *taskSide) sharedUses(f *ssa.Function) []ssa.Instruction {
 			out = append(out, ref)
 		}
 	})
+	isUse := func(i ssa.Instruction) bool {
+		c := callOf(i)
+		return c != nil && c.IsInvoke() && fieldVarOfLoad(c.Value) == s.stream
+	}
+	memo := map[*ssa.Function]int{}
+	eachInstr(f, func(i ssa.Instruction) {
+		if h := helperCallee(i, FnPkg(f)); h != nil && h != f && s.prog.containsDeep(h, isUse, memo) {
+			s.lifted[i] = true
+			out = append(out, i)
+		}
+	})
 	return out
 }
 
@@ -261,16 +286,29 @@ func (s *taskSide) sharedUses(f *ssa.Function) []ssa.Instruction {
 func (s *taskSide) counterWrites(f *ssa.Function) []ssa.Instruction {
 	var out []ssa.Instruction
 	eachInstr(f, func(i ssa.Instruction) {
-		if c := callOf(i); c != nil {
-			if isAtomic(c, "StoreInt32", "SwapInt32", "AddInt32", "CompareAndSwapInt32") && len(c.Args) > 0 && s.isCounterPtr(c.Args[0]) {
-				out = append(out, i)
-			}
-		}
-		if st, ok := i.(*ssa.Store); ok && s.isCounterPtr(st.Addr) {
+		if s.isCounterWrite(i) {
 			out = append(out, i)
 		}
 	})
 	return out
+}
+
+func (s *taskSide) isCounterWrite(i ssa.Instruction) bool {
+	if c := callOf(i); c != nil {
+		if isAtomic(c, "StoreInt32", "SwapInt32", "AddInt32", "CompareAndSwapInt32") && len(c.Args) > 0 && s.isCounterPtr(c.Args[0]) {
+			return true
+		}
+	}
+	if st, ok := i.(*ssa.Store); ok && s.isCounterPtr(st.Addr) {
+		return true
+	}
+	return false
+}
+
+// counterWritesLifted: counter writes of f plus calls of f to helpers that contain one.
+func (s *taskSide) counterWritesLifted(f *ssa.Function) []ssa.Instruction {
+	d, v := s.prog.liftedSites(f, s.isCounterWrite)
+	return append(d, v...)
 }
 
 func describeCall(p *Prog, i ssa.Instruction) string {
@@ -321,7 +359,7 @@ func ruleToken(p *Prog, r *RuleResult) {
 			r.info(fmt.Sprintf("%s acquire edge: block %d -> %d", fname, e.from.Index, e.from.Succs[e.succ].Index), p.IPos(e.from.Instrs[len(e.from.Instrs)-1]))
 		}
 		var releases []ssa.Instruction
-		for _, w := range s.counterWrites(s.fn) {
+		for _, w := range s.counterWritesLifted(s.fn) {
 			releases = append(releases, w)
 			r.info(fmt.Sprintf("%s release/counter write in task body: %s", fname, describeCall(p, w)), p.IPos(w))
 		}
@@ -334,7 +372,9 @@ func ruleToken(p *Prog, r *RuleResult) {
 			what := describeCall(p, u)
 			key := k.key(fname, "shared."+what)
 			c := callOf(u)
-			if c == nil || !c.IsInvoke() || fieldVarOfLoad(c.Value) != s.stream {
+			if s.lifted[u] {
+				what = "helper " + what
+			} else if c == nil || !c.IsInvoke() || fieldVarOfLoad(c.Value) != s.stream {
 				r.fail(key, p.IPos(u), "the shared bitstream escapes the task (passed or stored instead of being called): exclusive access cannot be established")
 				continue
 			}
@@ -366,11 +406,26 @@ func ruleToken(p *Prog, r *RuleResult) {
 				r.fail(k.key(p.FnName(an), "shared."+describeCall(p, u)), p.IPos(u), "shared bitstream accessed from a closure of the task (runs outside the token window)")
 			}
 		}
-		// ids: currentBlockID = firstID + taskID + 1 with taskID the loop induction variable
+		// ids: currentBlockID = firstID + taskID + 1 with taskID the loop induction variable (the literal may be
+		// filled by a builder helper: its parameters are replaced by the call-site arguments)
 		idOK := false
-		eachInstr(s.parent, func(i ssa.Instruction) {
+		builder, bcall := taskBuilder(p, s)
+		resolve := func(v ssa.Value) ssa.Value {
+			if pr, ok := v.(*ssa.Parameter); ok && builder != s.parent && bcall != nil {
+				for i, q := range builder.Params {
+					if q == pr && i < len(bcall.Common().Args) {
+						return bcall.Common().Args[i]
+					}
+				}
+			}
+			return v
+		}
+		eachInstr(builder, func(i ssa.Instruction) {
 			st, ok := i.(*ssa.Store)
 			if !ok || fieldVarOfAddr(st.Addr) != s.curID {
+				return
+			}
+			if fa, ok := st.Addr.(*ssa.FieldAddr); !ok || namedOf(fa.X.Type()) != s.taskT {
 				return
 			}
 			hasPhi, hasOne, hasBase := false, false, false
@@ -379,6 +434,7 @@ func ruleToken(p *Prog, r *RuleResult) {
 				if d > 8 {
 					return
 				}
+				v = resolve(v)
 				switch x := v.(type) {
 				case *ssa.BinOp:
 					if x.Op == token.ADD {
@@ -451,8 +507,9 @@ func ruleCancel(p *Prog, r *RuleResult) {
 			return ok && v == cancel
 		}
 
-		// (a) spin loops
-		for _, b := range s.fn.Blocks {
+		// (a) spin loops (in the task function or in a helper extracted from it)
+		for _, lf := range append([]*ssa.Function{s.fn}, p.helperClosure(s.fn)...) {
+		  for _, b := range lf.Blocks {
 			for _, in := range b.Instrs {
 				v, ok := in.(ssa.Value)
 				if !ok || !s.counterLoad(v) {
@@ -525,6 +582,7 @@ func ruleCancel(p *Prog, r *RuleResult) {
 					r.ok(key+" yields", p.IPos(in))
 				}
 			}
+		  }
 		}
 
 		// (b,c,e) deferred closure
@@ -539,7 +597,7 @@ func ruleCancel(p *Prog, r *RuleResult) {
 		var deferInstr *ssa.Defer
 		eachInstr(s.fn, func(i ssa.Instruction) {
 			if df, ok := i.(*ssa.Defer); ok {
-				if mc, ok := df.Call.Value.(*ssa.MakeClosure); ok && mc.Fn == d {
+				if deferredTarget(df) == d {
 					deferInstr = df
 				}
 			}
@@ -815,29 +873,8 @@ func rulePoison(p *Prog, r *RuleResult) {
 	pname := p.FnName(s.parent)
 	// shape A: the cancel exit of the spin loop stores a non-nil task error
 	shapeA := false
-	for _, b := range s.fn.Blocks {
-		ifi := blockIf(b)
-		if ifi == nil {
-			continue
-		}
-		atom, pos := condAtom(ifi.Cond)
-		bo, ok := atom.(*ssa.BinOp)
-		if !ok || (bo.Op != token.EQL && bo.Op != token.NEQ) {
-			continue
-		}
-		var other ssa.Value
-		if s.counterLoad(bo.X) {
-			other = bo.Y
-		} else if s.counterLoad(bo.Y) {
-			other = bo.X
-		}
-		if other == nil {
-			continue
-		}
-		if cv, ok := constInt(other); !ok || cv != cancel {
-			continue
-		}
-		exit := b.Succs[succFor(pos, bo.Op == token.EQL)]
+	for _, e := range s.cancelEdges(s.fn) {
+		exit := e.from.Succs[e.succ]
 		stores := map[ssa.Instruction]bool{}
 		eachInstr(s.fn, func(i ssa.Instruction) {
 			if st, ok := i.(*ssa.Store); ok && fieldVarOfAddr(st.Addr) == s.errField && !isNilConst(st.Val) {
@@ -846,7 +883,7 @@ func rulePoison(p *Prog, r *RuleResult) {
 		})
 		if len(stores) > 0 && allPathsThrough(s.fn, exit, 0, stores) {
 			shapeA = true
-			r.ok(fname+" cancel exit stores a task error", p.IPos(ifi))
+			r.ok(fname+" cancel exit stores a task error", p.IPos(e.from.Instrs[len(e.from.Instrs)-1]))
 		}
 	}
 	// shape B: processBlock tests the counter against the cancel value; the cancelled edge returns only non-nil errors;
